@@ -3,6 +3,13 @@
 import json, os
 V = os.path.dirname(os.path.dirname(os.path.abspath(__file__)))
 CHECKS = {
+ 'C09': dict(
+    level=('other', 'Bounded/inductive symbolic execution of the real sourcemap.write, normalize_mapping_line(s), Names, Bookkeeper, encode_sourcemap (SX, z3 Ints for every position, length and index): '
+                    'W = one step from an arbitrary valid writer state for each of 504 fragment shapes (induction over stream length), N = normalisation of symbolic lines of <= 4/5 segments with arbitrary carry (induction over lines), '
+                    'E = whole runs from the initial state on <= 2/3 fragments decoded from scratch by a spec decoder. A solver is the right tool: the defects live in running deltas whose wrong values appear only after particular sequences, and one inductive step covers all of them.', 'DESIGN.md C09'),
+    note='Trusted: z3; SX instrumentation; ref/sourcemap_ref.py as the reading of Source Map V3; the writer-state representation invariant (base case checked by leg E). Stub: encode_mappings (VLQ text) is C10. Outside: text shapes with more than two line pieces per fragment, fragments giving only one of line/column.',
+    technique='symbolic execution of the real Python code with z3 (inductive step over an arbitrary symbolic writer state + bounded whole runs), differential against a spec decoder on the same symbolic segments',
+    engine='SX'),
  'C10': dict(
     level=('other', 'Bounded symbolic execution of the real vlq.py on z3 bit-vectors (SX engine): per path z3 decides every branch and the negated codec laws; '
                     'covers every integer |i| < 2^64 (quick) / 2^300 (thorough), lists, every canonical string up to 4/7 characters and mappings structures. '
